@@ -483,12 +483,104 @@ def random_fixups(out: hlib.RecWriter, rng: random.Random, n_hist: int) -> None:
                        'sig': {'kind': 'fixup', 'action': a['op'], 'src': 'random'}, 'hist': list(hist)})
 
 
+def fixmap_project(fx: EntityFixup) -> list:
+    return sorted(({'name': k, 'var': v.var, 'val': v.value, 'idx': v.id} for k, v in fx._fixup.items()),
+                  key=lambda e: e['idx'])
+
+
+def fixmap_exported(fx: EntityFixup) -> list:
+    """What export() writes: one ("replaceNN", "$var value") line per variable, parsed back."""
+    buf = io.StringIO()
+    fx.export(buf, '')
+    out = []
+    for line in buf.getvalue().splitlines():
+        key, val = [t for t in line.strip().split('"') if t.strip()]
+        var, _, value = val.partition(' ')
+        out.append({'idx': int(key[len('replace'):]), 'var': var.lstrip('$'), 'val': value})
+    return out
+
+
+def fixmap_build(state: list) -> EntityFixup:
+    return EntityFixup([FixupValue(e['var'], e['val'], e['idx']) for e in state])
+
+
+def fixmap_apply(fx: EntityFixup, a: dict):
+    op = a['op']
+    sp = ('$' if a.get('s', {}).get('dollar') else '') + a.get('s', {}).get('sp', '')
+    res = 0
+    if op == 'set':
+        fx[sp] = a['val']
+    elif op == 'del':
+        del fx[sp]
+    elif op == 'get':
+        res = {'val': fx[sp], 'has': sp in fx}
+    elif op == 'setdefault':
+        res = fx.setdefault(sp, a['val'])
+    elif op == 'clear':
+        fx.clear()
+    elif op == 'copy':
+        import copy as _copy
+        dup = _copy.copy(fx)
+        res = [{k: e[k] for k in ('idx', 'var', 'val')} for e in fixmap_project(dup)]
+        # the copy must be independent: change and grow it, the source must not move
+        for key in list(dup):
+            dup[key] = 'changed'
+        dup['zz_new'] = 'x'
+    return fx, res
+
+
+def fixmap_edges(edge_file: str, out: hlib.RecWriter) -> None:
+    edges = [e for e in json.load(open(edge_file)) if e.get('tag') == 'EDGE']
+    for e in edges:
+        a = {k: v for k, v in e['a'].items() if k != 'res'}
+        pre = [{'name': x['var'].casefold(), 'var': x['var'], 'val': x['val'], 'idx': x['idx']} for x in (e['s'] or [])]
+        fx = fixmap_build(pre)
+        pre_real = fixmap_project(fx)
+        fx, res = fixmap_apply(fx, a)
+        out.write({'pre': pre_real, 'a': a, 'res': res, 'post': fixmap_project(fx), 'exported': fixmap_exported(fx),
+                   'sig': {'kind': 'fixmap', 'action': a['op'], 'src': 'edge'}})
+
+
+def fixmap_random(out: hlib.RecWriter, rng: random.Random, n: int) -> None:
+    names = ['a', 'A', 'door', 'Door', 'DOOR', 'x_1', 'long_name', 'straße', 'STRASSE', 'ǅ', 'ǆ']   # no spaces: '$var value' lines cannot carry them
+    vals = ['', '1', 'a b', 'quo"te', 'back\\slash', '$other']
+    for _ in range(n):
+        fx = EntityFixup()
+        for _ in range(rng.randint(1, 14)):
+            nm = rng.choice(names)
+            s = {'name': nm.casefold(), 'sp': nm, 'dollar': rng.random() < 0.4}
+            op = rng.choice(['set', 'set', 'del', 'get', 'setdefault', 'copy', 'clear'] if len(fx) else ['set', 'setdefault', 'get'])
+            a = {'op': op}
+            if op in ('set', 'del', 'get', 'setdefault'):
+                a['s'] = s
+            if op in ('set', 'setdefault'):
+                a['val'] = rng.choice(vals)
+            pre = fixmap_project(fx)
+            fx, res = fixmap_apply(fx, a)
+            rec = {'pre': pre, 'a': a, 'res': res, 'post': fixmap_project(fx),
+                   'sig': {'kind': 'fixmap', 'action': op, 'src': 'random'}}
+            # values containing quotes/backslashes are escaped in the export; compare those through the tokenizer
+            from srctools.keyvalues import Keyvalues as _KV
+            buf = io.StringIO()
+            fx.export(buf, '')
+            exp = []
+            for kv in _KV.parse(buf.getvalue()):
+                var, _, value = kv.value.partition(' ')
+                exp.append({'idx': int(kv.real_name[len('replace'):]), 'var': var.lstrip('$'), 'val': value})
+            rec['exported'] = exp
+            out.write(rec)
+
+
 def main() -> None:
     mode = sys.argv[1]
     stats: dict = {}
     if mode == 'edges':
         out = hlib.RecWriter(sys.argv[4])
         replay_edges(sys.argv[2], sys.argv[3].split(','), out, stats)
+    elif mode == 'fixmap':
+        out = hlib.RecWriter(sys.argv[3])
+        fixmap_edges(sys.argv[2], out)
+        fixmap_random(out, random.Random(hlib.seed() * 131 + 5), 4000 if hlib.tier() == 'thorough' else 500)
     elif mode == 'random':
         out = hlib.RecWriter(sys.argv[2])
         rng = random.Random(hlib.seed() * 7919 + 8)
